@@ -1,5 +1,6 @@
 #include "c12.h"
 
+#include <errno.h>
 #include <malloc.h>
 
 #include <algorithm>
@@ -567,13 +568,17 @@ Outcome exec_c12(const C12Case& c, bool keep_log, Stats* stats) {
     // different one for each of the two attempts: an uninitialised read then changes the outcome.
     static const unsigned char kFill[] = {0x0a, 0x00, 0x30, 0x41, 0x2c, 0xff, 0x3c, 0x3e, 0x80, 0x01, 0x2f, 0x4d};
     const size_t f1 = static_cast<size_t>(c.sched_seed % 12), f2 = (f1 + 1 + static_cast<size_t>((c.sched_seed / 12) % 11)) % 12;
+    // Ambient C state must not matter either: the two attempts start with different errno values.
+    static const int kErrno[] = {0, ERANGE, EINVAL, EDOM, ENOMEM, EINTR, EOVERFLOW, EILSEQ};
     paint_stack(kFill[f1]); perturb_heap(0xff ^ kFill[f1]);
+    errno = kErrno[f1 % 8];
     attempt(n1, &att[0], 0);
     sim::yield(Y_OP);
     // A decoy load between the two attempts: if anything of a previously loaded (or half-loaded and
     // rejected) zone survives into the next load, the second attempt sees different leftovers than the first.
     { cctz::time_zone dz; LibraryScope ls; cctz::load_time_zone(nd, &dz); if (!(dz == utc)) (void)dz.lookup(tp_of(1600000000)); }
     paint_stack(kFill[f2]); perturb_heap(0xff ^ kFill[f2]);
+    errno = kErrno[(f1 % 8 + 1 + (c.sched_seed / 144) % 7) % 8];
     attempt(n2, &att[1], 1);
     perturb_heap(0);
   });
